@@ -45,8 +45,12 @@ def coq_obs(r, read_globals):
             return "(OFail EUnhandledOpcode)"
         if e == "RecursionError":
             return "(OSkip 2)"
+        if e == "Timeout":
+            return "(OFail EValue)"     # never what model or specification produce for a terminating program
         if e in ERR:
             return "(OFail %s)" % ERR[e]
+        return "(OSkip 9)"
+    if '"big"' in json.dumps(r):
         return "(OSkip 9)"
     return "(ORet %s [%s])" % (ircoq.pyval(r["ret"]), "; ".join("(%s, %s)" % (ircoq.s(g), ircoq.pyval(r["globals"][g])) for g in read_globals))
 
@@ -63,3 +67,50 @@ def case_line(module_json, result, calls, with_spec=True):
     if with_spec:
         return "run_case fuel %s %s %s %s" % (nslgen.coq_module(module_json), prog, cs, coq_list(obs))
     return "run_case_model fuel %s %s %s" % (prog, cs, coq_list(obs))
+
+
+def case_block(k, module_json, result, calls, with_spec=True, with_ir=True):
+    """Definitions M_k, P_k and the expression computing the case code:
+       bits 1 model-vs-impl run, 2 spec-vs-impl run, 4 model skipped, 8 spec skipped, 16 lowering model IR differs,
+       64 outside the lowering model's fragment, 80 (=16+64) the lowering model rejects/fails"""
+    prog = ircoq.program({"functions": result["ir"]["functions"], "globals": result["ir"]["globals"]})
+    obs = []
+    for c, r in zip(calls, result["calls"]):
+        obs.append(coq_obs(r, c.get("read_globals", [])))
+        if "fail" in r:
+            break
+    cs = coq_list([coq_call(c) for c in calls])
+    defs = "Definition P_%d : program := %s.\n" % (k, prog)
+    if with_spec or with_ir:
+        defs += "Definition M_%d : module := %s.\n" % (k, nslgen.coq_module(module_json))
+    run = ("run_case fuel M_%d P_%d %s %s" % (k, k, cs, coq_list(obs))) if with_spec else ("run_case_model fuel P_%d %s %s" % (k, cs, coq_list(obs)))
+    if with_ir:
+        run = "(%s + 16 * ir_case M_%d P_%d)" % (run, k, k)
+    return defs, run
+
+
+def write_case_files(ctx, name, blocks, per=8):
+    """blocks: list of (defs, expr); returns list of files"""
+    import os
+    files = []
+    for i in range(0, len(blocks), per):
+        f = os.path.join(ctx.dyn, "cases_%s_%d.v" % (name, i // per))
+        chunk = blocks[i:i + per]
+        open(f, "w").write(HEADER + "".join(d for d, _ in chunk) + "Definition cases : list Z := [\n  " + ";\n  ".join(e for _, e in chunk) + "].\nEval vm_compute in cases.\n")
+        files.append(f)
+    return files
+
+
+def collect_codes(ctx, files, outs, n, per=8):
+    import os
+    from common import parse_coq_values
+    codes = []
+    for f in files:
+        ok, out, err = outs[f]
+        vals = parse_coq_values(out) if ok else []
+        if not ok or not vals or not isinstance(vals[0], list):
+            ctx.broken.append("correspondence: %s did not evaluate: %s" % (os.path.basename(f), err[-300:]))
+            codes.extend([None] * min(per, n - len(codes)))
+        else:
+            codes.extend(vals[0])
+    return codes
